@@ -29,7 +29,7 @@ CASE_TIMEOUT = {'quick': 120, 'thorough': 300}
 
 
 def plan(tier, seed):
-    n_ops, n_net = (40, 72) if tier == 'quick' else (1200, 2400)
+    n_ops, n_net = (96, 160) if tier == 'quick' else (1200, 2400)
     cases = [{'idx': i, 'kind': 'ops'} for i in range(n_ops)]
     cases += [{'idx': n_ops + i, 'kind': 'net', 'flavour': P.flavour(i)} for i in range(n_net)]
     return cases
